@@ -1,4 +1,5 @@
 import AcqVerif.Runtime.Clean
+import AcqVerif.Runtime.Data.WakeReach
 /-!
 # C07 — abort and stop always return and leave a reusable runtime
 
@@ -63,6 +64,17 @@ theorem start_over_finished_threads (rt : RT) (h : MReach rt) (s : Nat) :
 theorem idle_runtime_is_clean (rt : RT) (h : MReach rt) (hq : quiet rt.client.pc = true) (hs : rt.state ≠ .running) (s : Nat) :
     Clean (getS rt s) :=
   idle_is_clean rt h hq hs s
+
+/-- (5) **abort reaches a source that sleeps on a full ring** (no lost wake-up at pipeline level): a source decides to sleep
+only while the channel accepts writes and holds the channel's lock until it is asleep; so whenever it is asleep on a channel
+that refuses writes — after `acquire_abort` or the sink's error path — the one who refused has its `notify_all` still ahead
+of it. (Stream without scripted camera faults, client keeping the map/unmap rule.) -/
+theorem refusal_wakes_a_sleeping_source (rt : RT) (h : MReach rt) (s : Nat) (hf : (getS rt s).cam.failAt = none)
+    (he : (getS rt s).cam.emptyEvery = 0) (hm : rt.client.misused = false) :
+    ((getS rt s).src.pc = .wmapWait → (getS rt s).sinkCh.c.accepting = true) ∧
+    ((getS rt s).src.pc = .wmapAsleep → (getS rt s).sinkCh.c.accepting = false →
+      (getS rt s).snk.pc = .errAccNotify ∨ rt.client.pc = .accNotify s 1) :=
+  ⟨(DWake.micro rt h s hf he hm).held, (DWake.micro rt h s hf he hm).refused_wakes⟩
 
 /-- non-vacuity: a scenario with an abort is an initial state the theorems start from -/
 example : MReach (initRT 400 [some { F := 104, n := 1000 }, none] [.start, .sleep 7, .abort, .start, .stop]) := .init _ _ _
